@@ -1036,6 +1036,45 @@ def extra_part(only=None):
                 if not caught or got is not caught[0]:
                     bad("C07:extra:body-exception:inner-illtyped-call:not-the-same-object", f"{tcn}: a well-typed outer call whose body makes an ill-typed jaxtyped call: the caller received {type(got).__name__ if got is not None else None}, which is not the exception object the body saw", rep)
 
+    # (X4) a non-binding call made (and handled) INSIDE the body of another decorated function must
+    # not disturb the enclosing well-typed call (whose return annotation depends on its own context)
+    for tcn, tc in tcs.items():
+        for how in ("too-many", "missing", "unexpected-keyword"):
+            rep = dict(part="nonbinding-inside-body", tc=tcn, how=how)
+            if only is not None and only != rep:
+                continue
+            n += 1
+
+            def inner4(x):
+                return x
+
+            inner4.__annotations__ = {"x": Float[_Duck, "a"]}
+            d4 = jaxtyped(typechecker=tc)(inner4)
+            ret = _Duck((3,))
+            seen = []
+
+            def outer4(y, k):
+                try:
+                    if how == "too-many":
+                        d4(y, y, y)
+                    elif how == "missing":
+                        d4()
+                    else:
+                        d4(y, zz=1)
+                except TypeError as ex:
+                    seen.append(type(ex))
+                return ret
+
+            outer4.__annotations__ = {"y": Float[_Duck, "n"], "k": int, "return": Float[_Duck, "n+1"]}
+            t4 = jaxtyped(typechecker=tc)(outer4)
+            try:
+                got = t4(_Duck((2,)), 1)
+                err = None
+            except BaseException as ex:  # noqa: BLE001
+                got, err = None, f"{type(ex).__name__}: {str(ex)[:100]}"
+            if err is not None or got is not ret or seen != [TypeError]:
+                bad(f"C07:extra:nonbinding-inside-body:{how}", f"{tcn}: a well-typed call f(y: 'n', k) -> 'n+1' whose body makes a handled non-binding ({how}) call to another decorated function: raised {err}, result identical={got is ret}, inner exceptions seen {seen}", rep)
+
     class EqAll:
         def __eq__(self, other):
             return True
